@@ -76,6 +76,16 @@ func init() {
 		obj := ex.newObj(st, rv)
 		return &IfaceV{Typ: readerType, Val: &Ptr{Obj: obj}}, nil
 	}
+	// vTokenReader(tokens): an io.Reader whose lexing yields exactly tokens.
+	// Natively the tokens are rendered to text; here the reader is empty and
+	// the package's next newLexer / (*lexer).Tokens hand the tokens out
+	// unchanged (see Exec.pendingTokenCall), so that the caller — the real
+	// CompileWarrior — runs from its own first line.
+	intrinsics["vTokenReader"] = func(ex *Exec, st *State, fr *Frame, args []Value, in ssa.Instruction) (Value, *forkReq) {
+		st.PendingTokens = args[0]
+		obj := ex.newObj(st, &ReaderV{})
+		return &IfaceV{Typ: readerType, Val: &Ptr{Obj: obj}}, nil
+	}
 	intrinsics["vTextReader"] = func(ex *Exec, st *State, fr *Frame, args []Value, in ssa.Instruction) (Value, *forkReq) {
 		s := args[0].(*StrV)
 		if len(s.Alts) > 1 {
